@@ -395,8 +395,9 @@ Module Ex.
       Query [D1; F1] true;
       Push [D1; D2] false [];                   (* expanded retry: everything arrives, indexed *)
       ExtDelete [D1; F1];                       (* behind the index's back *)
-      Fetch [F3] [F1; D1] true [];              (* index.intersection still claims F1, D1 *)
-      Query [D1; D2; F1] true ].                (* stale index cleared, D2 re-indexed *)
+      Query [F1; F2] true;                      (* no directory asked: the stale index answers *)
+      Fetch [F3] [F1; F2] true [];              (* ... and a fetch trusting it fails on F1 *)
+      Query [D1; D2; F1] true ].                (* D1 asked: D2 re-validated and re-indexed *)
 
   Lemma wf : wf_env E.
   Proof.
@@ -419,28 +420,23 @@ Module Ex.
       intros o Ho; repeat (apply elem_of_cons in Ho as [->|Ho]; [set_solver|]); inversion Ho.
   Qed.
 
-  Definition trace_summary : list (bool * bool * bool) :=
-    map (λ p, (same_set (dom (s_idx p.2)) [], same_set (s_remote p.2) [F1; F3],
-               match p.1 with OTransfer _ _ f => negb (same_set f []) | _ => false end))
-        (trace E (init_state ∅) ops).
-
-  (* after op 0: F1, F3 delivered, failures reported, index empty; after op 2 index = all five
-     ids; after op 5: index = {D2, F2, F3} and the remote = {F2, F3, D2} *)
   Example trace_ok :
-    let tr := trace E (init_state ∅) ops in
-    match tr with
+    match trace E (init_state ∅) ops with
     | [(OTransfer _ t0 f0, s0); (OStatus e1 m1, s1); (OTransfer _ t2 f2, s2); (ONone, s3);
-       (OTransfer c4 _ _, s4); (OStatus e5 m5, s5)] =>
+       (OStatus e4 m4, s4); (OTransfer c5 t5 f5, s5); (OStatus e6 m6, s6)] =>
         same_set t0 [F1; F3] && same_set f0 [F2; D1; D2] && same_set (s_remote s0) [F1; F3]
         && same_set (dom (s_idx s0)) []
         && same_set e1 [F1] && same_set m1 [D1]
         && same_set t2 [D1; D2; F2] && same_set f2 []
         && same_set (dom (s_idx s2)) [D1; D2; F1; F2; F3] && same_set (ix_dirs (s_idx s2)) [D1; D2]
         && same_set (s_remote s3) [F2; F3; D2]
-        && same_set (c_new c4) [F1; D1]          (* the stale index lies to a files-only... *)
-        && same_set e5 [D2] && same_set m5 [D1; F1]
-        && same_set (dom (s_idx s5)) [D2; F2; F3]
-        && same_set (s_ever s5) [F1; F2; F3; D1; D2] = true
+        && same_set e4 [F1; F2] && same_set m4 []
+        && same_set (c_new c5) [F1; F2] && same_set t5 [F2] && same_set f5 [F1]
+        && same_set (dom (s_idx s5)) []
+        && same_set e6 [D2] && same_set m6 [D1; F1]
+        && same_set (dom (s_idx s6)) [D2; F2; F3] && same_set (ix_dirs (s_idx s6)) [D2]
+        && same_set (s_remote s6) [F2; F3; D2]
+        && same_set (s_ever s6) [F1; F2; F3; D1; D2] = true
     | _ => False
     end.
   Proof. vm_compute. reflexivity. Qed.
